@@ -7,7 +7,8 @@ is translated to Python source twice from the same AST: main as a generator unde
 (``yield``) and main as ``async def`` (``await``; lists/dicts through ``gen.multi``; moment/None as
 ``asyncio.sleep(0)``) run with ``asyncio.ensure_future``.  Both are exec'd and run on fresh virtual
 loops under the same schedule: which of the <=4 awaited futures are already done before the call, the
-groups in which the others complete afterwards, each with a result or an exception.
+groups in which the others complete afterwards, each with a result or an exception.  Result and return values
+include exception instances, a BaseException-subclass instance and exception classes *as plain data*.
 
 Oracle (differential): same final state (value / exception type+args), same ``emit`` trace including
 the markers "completion step k has happened" (loop-iteration counts are not compared); both output
@@ -31,6 +32,11 @@ Sensitivity (quick tier, seed 1, one textual mutation at a time on a scratch cop
   * Runner.run: StopIteration/Return value dropped (result None)                        -> caught (C37.outcome_differs)
   * Runner.run: `Return` no longer recognised after the first yield                     -> caught (C37.outcome_differs)
   * wrapper: `Return` no longer recognised on the first iteration                       -> caught (C37.outcome_differs)
+  * Runner.run decides throw-vs-send by `isinstance(value, Exception)` on the future's *result* (a future / child
+    coroutine that succeeds with an exception instance as data)                         -> caught at seeds 1-3
+    (C37.outcome_differs) since exception instances, a BaseException-subclass instance and exception classes were
+    added to the pool of future results and return values; the class / BaseException variants of the mutant are
+    caught too (C37.internal_error_logged / C37.value_raised_as_exception).  Earlier version: missed.
   DESIGN's "fast path returning before finally runs" has no small textual equivalent (the generator itself runs the
   finally); the two fast-path mutants above stand in for it.
 """
@@ -50,7 +56,8 @@ PROPERTY = "C37"
 READY = True
 RULE = (
     "Hypothesis generates (program AST, 1-4 schedules); program: <=6 top-level statements, nesting depth <=3, "
-    "<=2 subs (native/decorated), <=4 futures; schedule: per-future outcome (result/ErrA/ErrB), already-done "
+    "<=2 subs (native/decorated), <=4 futures; schedule: per-future outcome (int result / an exception instance or "
+    "class handed over as a plain result value / failure ErrA, ErrB), already-done "
     "flags, ordered completion groups; thorough adds all singleton-step permutations of the first schedule. "
     "non-trivial = program reaches >=2 awaits and has a try/finally or a list/dict wait, and was run under >=2 "
     "distinct schedules; distinct = SHA-1 of the case"
@@ -76,6 +83,27 @@ class ErrB(Exception):
 
 
 ERR = {"A": ErrA, "B": ErrB}
+
+
+class DataBase(BaseException):
+    """A BaseException subclass that only ever travels as a *value* (future result / return value)."""
+
+
+# exceptions (instances and classes) used as plain data: results of futures and return values.  Receiving one
+# from an await must hand it over as a value in both forms, never raise it.
+DATA = {
+    "E:val": lambda: ValueError("data"),
+    "E:erra": lambda: ErrA("data"),      # a type the generated handlers would catch if it were thrown in
+    "E:key": lambda: KeyError(1),
+    "E:base": lambda: DataBase("b"),
+    "E:cls": lambda: ErrB,
+    "E:basecls": lambda: DataBase,
+}
+DATA_REPRS = tuple(repr(f()) for f in DATA.values())
+
+
+def mk(code):
+    return DATA[code]()
 HANDLER_SRC = {"A": "ErrA", "B": "ErrB", "AB": "(ErrA, ErrB)", "X": "Exception"}
 
 
@@ -108,6 +136,8 @@ class Render:
         return "F[%d]" % m[1] if m[0] == "fut" else "sub%d()" % m[1]
 
     def val(self, v):
+        if isinstance(v, str) and v.startswith("E:"):
+            return "mk(%r)" % v
         return "x" if v == "x" else repr(v)
 
     def body(self, stmts, style, ind, catchall, is_main, maxsub):
@@ -218,10 +248,12 @@ async def _scenario(src, nf, sched, style):
         o = sched["out"][i]
         if o[0] == "r":
             F[i].set_result(o[1])
+        elif o[0] == "v":
+            F[i].set_result(mk(o[1]))
         else:
             F[i].set_exception(ERR[o[1]]("F%d" % i))
 
-    ns = {"gen": gen, "asyncio": asyncio, "F": F, "emit": trace.append, "CV": CV, "ErrA": ErrA, "ErrB": ErrB}
+    ns = {"gen": gen, "asyncio": asyncio, "F": F, "emit": trace.append, "CV": CV, "ErrA": ErrA, "ErrB": ErrB, "mk": mk}
     exec(compile(src, "<c37-%s>" % style, "exec"), ns)
     for i in range(nf):
         if sched["pre"][i]:
@@ -248,6 +280,8 @@ async def _scenario(src, nf, sched, style):
     await vtime.settle()
     trace.append(("step", "end"))
     final = norm(out)
+    if final[0] == "ok":
+        final = ("ok", repr(final[1]))  # values may be exception instances (compared by repr, not identity)
     for f in F:
         norm(f)
     return trace, final, fast
@@ -290,7 +324,12 @@ def run_case(ctx, case):
         res = {}
         for style, src in (("gen", src_gen), ("native", src_nat)):
             with Logs() as logs:
-                res[style] = vtime.run(_scenario, src, nf, sched, style)
+                try:
+                    res[style] = vtime.run(_scenario, src, nf, sched, style)
+                except DataBase as e:
+                    # DataBase only ever travels as a value; if it is raised, something threw a value
+                    ctx.fail("C37.value_raised_as_exception", {"style": style, "exc": repr(e), "src": src, "sched": sched})
+                    res[style] = ([("escaped", repr(e))], ("escaped", repr(e)), False)
                 bad = [x for x in logs.records if x[1] >= 40 and x[2].startswith("Exception in callback")]
             if bad:
                 ctx.fail("C37.internal_error_logged", {"style": style, "records": [(x[0], x[2][:200], repr(x[4])) for x in bad[:3]],
@@ -327,6 +366,10 @@ def run_case(ctx, case):
             labels.add("finally_ran")
         if fg[0] == "exc":
             labels.add("final_exception")
+        if any(e[0] == "got" and any(r in e[1] for r in DATA_REPRS) for e in tg):
+            labels.add("exception_as_value_received")
+        if fg[0] == "ok" and any(r in fg[1] for r in DATA_REPRS):
+            labels.add("exception_as_final_value")
         if any(sched["pre"]):
             labels.add("already_done_future")
         awaits_reached = max(awaits_reached, sum(1 for e in tg if e[0] == "got"))
@@ -399,7 +442,7 @@ def _g_simple(draw, nf, nsub, in_try):
         return ("ctx_reset",)
     if w < (97 if in_try else 91):
         return ("raise", draw(st.sampled_from(["A", "B"])), draw(st.integers(0, 3)))
-    v = draw(st.sampled_from(["x", "x", 0, 1, 2]))
+    v = draw(st.sampled_from(["x", "x", "x", 0, 1, 2, "E:val", "E:erra", "E:key", "E:base", "E:cls", "E:basecls"]))
     return ("return", v) if draw(W) < 50 else ("rreturn", v)
 
 
@@ -431,6 +474,7 @@ def _sched_s(nf):
     @st.composite
     def s(draw):
         out = [draw(st.one_of(st.tuples(st.just("r"), st.integers(0, 99)), st.tuples(st.just("r"), st.integers(0, 99)),
+                              st.tuples(st.just("v"), st.sampled_from(sorted(DATA))),
                               st.tuples(st.just("e"), st.sampled_from(["A", "B"])))) for _ in range(nf)]
         pre = [draw(st.sampled_from([False, False, False, True])) for _ in range(nf)]
         rest = [i for i in range(nf) if not pre[i]]
@@ -458,7 +502,7 @@ def case_s(all_perms):
                          "body": _g_body(draw, 1, nf, k, False, 1, 4)})
         main = _g_body(draw, 2, nf, nsub, False, 2, 6)
         if main[-1][0] not in TERMINATORS and draw(W) < 40:
-            v = draw(st.sampled_from(["x", "x", 3]))
+            v = draw(st.sampled_from(["x", "x", 3, "E:erra", "E:base"]))
             main.append(("return", v) if draw(W) < 50 else ("rreturn", v))
         prog = {"nf": nf, "subs": subs, "main": main, "force_gen": draw(st.booleans())}
         scheds = draw(st.lists(_sched_s(nf), min_size=2 if nf else 1, max_size=4))
